@@ -90,10 +90,10 @@ example : (compose [recWrapper "b", recWrapper "a", recWrapper "c"] (baseHook (7
 theorem connect_reject_clean (code : Nat) (wv : WillVerdict) (bh : BH) (r : ConnectReq) (method : Option String) :
     let bh' := connectH (.reject code) wv bh r method
     bh'.b = bh.b ∧ bh'.pending = bh.pending ∧ bh'.authMethod = bh.authMethod ∧
-    bh'.xout = bh.xout ++ [{ conn := r.conn, pkt := .connackErr r.v (errConnackCode r.v code) }] ∧
+    bh'.xout = bh.xout ++ [{ conn := r.conn, pkt := .connackErr r.v (errConnackCode r.v code) }, { conn := r.conn, pkt := .closed }] ∧
     (code ≠ 0 → errConnackCode r.v code ≠ 0) ∧
     (r.v = 5 → errConnackCode r.v code = code) := by
-  refine ⟨rfl, rfl, rfl, rfl, ?_, ?_⟩
+  refine ⟨rfl, rfl, rfl, by simp [connectH, refuse, BH.xemit], ?_, ?_⟩
   · intro h
     unfold errConnackCode
     split <;> simp_all
@@ -394,7 +394,7 @@ example :
     (b'.out.getLast?.map (·.pkt)) = some (.suback 3 [1, 135, 0]) ∧
     (b'.subs.filter (·.1 == "px")).map (fun cs => (cs.2.filter, cs.2.qos)) = [("t/1", 1), ("t/3", 0)] := by decide
 /-- a rejected CONNECT of a v3 client: CONNACK 0x87 for a code outside the v3 range, state untouched -/
-example : (connectH (.reject 140) .keep { b := exB } { conn := "q", cid := "qx", v := 4 }).xout = [{ conn := "q", pkt := .connackErr 4 135 }] ∧
+example : (connectH (.reject 140) .keep { b := exB } { conn := "q", cid := "qx", v := 4 }).xout = [{ conn := "q", pkt := .connackErr 4 135 }, { conn := "q", pkt := .closed }] ∧
     (connectH (.reject 140) .keep { b := exB } { conn := "q", cid := "qx", v := 4 }).b.sessions.length = exB.sessions.length := by decide
 
 end GmqttVerif.C14
